@@ -87,6 +87,10 @@ def gen_labware(rng, name, kind=None, vclass="int", fill="mixed", limits="loose"
     else:
         max_volume = float(rng.choice([2000, 5000, 10000, 30000, 1e5]))
         min_volume = float(rng.choice([0, 0, 0, 10, 50, 100.5]))
+    if limits == "reservoir" or limits != "tight" and rng.random() < (0.15 if kind == "trough" else 0.04):
+        # a reservoir with a large dead volume (limits in the tens of millilitres)
+        min_volume = float(rng.choice([5000, 10000, 20000, 50000]))
+        max_volume = float(rng.choice([1e5, 2e5, 1e6]))
     initial = []
     for r in range(rows):
         row = []
